@@ -248,5 +248,7 @@ def in_dfrag(case):
             return cok(c[1])
         if k == 'sub':
             return cok(c[2]) and all(tok(t) for t in c[1])
+        if k == 'forall':
+            return len(c) == 3 and cok(c[2])          # (a universal EXPRESSION is read as its variable by the models: sets only)
         return False
     return case.get('cond') is not None and cok(case['cond']) and all(tok(t) for t in case['sel']) and not case.get('infer')
